@@ -4,6 +4,9 @@ import (
 	"fmt"
 	"math/rand"
 	"strings"
+	"sync"
+
+	"verifharness/canon"
 
 	"github.com/jig/lisp"
 	"github.com/jig/lisp/repl"
@@ -173,7 +176,66 @@ func c16Join(r *rand.Rand, toks []c16Tok) string {
 }
 
 // c16Check runs READ on the text and compares with the verdict.
+// c16Pool collects texts for the concurrent-readers family.
+var c16Pool []string
+var c16Seen int
+
+// c16Concurrent: several goroutines READ the pooled texts at the same time, in different orders; every reading must give
+// exactly what the same text gives when read alone (same value or same error): readings do not share state.
+func c16Concurrent(c *fw.Ctx, env types.EnvType, id string, texts []string) {
+	c.Case(id, fmt.Sprintf("%d texts read concurrently by 6 goroutines", len(texts)), func() {
+		outcome := func(t string) string {
+			var ast types.MalType
+			var err error
+			p, site, msg, _ := fw.Guard(func() { ast, err = lisp.READ(t, types.NewCursorFile("REPL"), env) })
+			switch {
+			case p:
+				return "panic@" + site + ": " + msg
+			case err != nil:
+				return fmt.Sprintf("error(multiline=%v): %v", repl.VerifMultiLine(err), err)
+			}
+			return "value: " + canon.Render(canon.FromGo(ast))
+		}
+		alone := make([]string, len(texts))
+		for i, t := range texts {
+			alone[i] = outcome(t)
+		}
+		var wg sync.WaitGroup
+		var mu sync.Mutex
+		var first string
+		for g := 0; g < 6; g++ {
+			wg.Add(1)
+			go func(g int) {
+				defer wg.Done()
+				for round := 0; round < 40; round++ {
+					for k := range texts {
+						i := (k*(g+1) + round*7 + g*3) % len(texts)
+						if got := outcome(texts[i]); got != alone[i] {
+							mu.Lock()
+							if first == "" {
+								first = fmt.Sprintf("text %q read alone gives %s; read while other goroutines were reading it gave %s", texts[i], alone[i], got)
+							}
+							mu.Unlock()
+							return
+						}
+					}
+				}
+			}(g)
+		}
+		wg.Wait()
+		c.Count("concurrent_reader_batches", 1)
+		c.Count("concurrent_readings", 6*40*len(texts))
+		if first != "" {
+			c.Violate(fw.Violation{Key: "concurrent-readings-interfere", What: first})
+		}
+	})
+}
+
 func c16Check(c *fw.Ctx, env types.EnvType, id string, toks []c16Tok, text string, what string) {
+	c16Seen++
+	if len(c16Pool) < 64 && len(text) < 600 && len(text) > 6 && c16Seen%211 == 0 {
+		c16Pool = append(c16Pool, text)
+	}
 	c.Case(id, text, func() {
 		v := c16Classify(toks)
 		var err error
@@ -404,6 +466,12 @@ func runC16(c *fw.Ctx) {
 		c16GenExpr(r, r.Intn(3), false, &second)
 		t3 := append(append([]c16Tok(nil), toks...), second...)
 		c16Check(c, e, fmt.Sprintf("two-%d", i), t3, c16Join(r, t3), "two-expressions")
+	}
+	// concurrent readers over the texts collected above
+	if len(c16Pool) >= 8 {
+		for i := 0; i < c.Pick(4, 40); i++ {
+			c16Concurrent(c, env, fmt.Sprintf("concurrent-%d", i), c16Pool)
+		}
 	}
 	// REPL sessions (c16repl.go)
 	rs := c.Rand("repl-sessions")
